@@ -9,6 +9,10 @@ CHECKS = {
    text="Exhaustive enumeration of the interpolation grammar up to a size bound (every derivation with <=4 items / nesting <=2 in the quick tier, <=5 / <=3 thorough) under six variable environments, plus every string over an 11-symbol alphabet up to length 5/6; each execution of template.Substitute (and a sample through the loader) is judged by a reference evaluator written from the statement. Held = no disagreement on any decided case; bounded, not a proof.",
    note="Trusts the reference evaluator as a reading of the statement; outcomes the statement leaves open (errors in unused branches, `$` before a non-name character, bare `{` in nested text) are observed for crashes only.",
    technique="runtime monitoring: reference-model monitor over exhaustive bounded template enumeration", design="4/C07"),
+ "C13": dict(category="exploration",
+   text="Every execution of graph.InDependencyOrder is driven by a schedule controller and judged online by a trace monitor at the public visitor boundary (exactly once, after dependencies, concurrency bound, return only after every started visit returned, first error, cyclic graphs refused before any visit, project unchanged, deadlock = global quiescence with nothing parked and no return). Completion orders are enumerated depth-first for every labelled DAG on <=4 services and ordered DAGs on 5 (x direction x max concurrency x roots x injected failures); the five verif yield points additionally park in seeded/starvation schedules; shards run from the -race build. Held = no refutation on the schedules observed (counts in evidence), not a proof over all interleavings.",
+   note="Quiescence is decided from goroutine wait states (runtime.Stack), confirmed twice, never from elapsed time; the monitor trusts its own recording of S/E/R events under one mutex. With internal steps parked, 'first error' is only required to be one of the injected errors.",
+   technique="runtime monitoring: online trace monitor + schedule controller over verif yield points, Go race detector", design="4/C13"),
 }
 PLANNED = {}
 
